@@ -45,6 +45,8 @@ func runC09(r *engine.Run) {
 	r.Rule("AGREE-mergekey", "when delete fuses shared-prefix nodes the new key is, piece by piece (symbolic evaluation of make+copy, element stores, append chains and literals, with offsets and total length), the parent's whole key followed by the absorbed node's whole key, or the slot number of the only remaining child followed by that child's whole key, or that slot number alone when the child is not a shared-prefix node; key and value of the fused node are rewritten together")
 	r.Rule("AGREE-weightop", "the weight bookkeeping of insert and delete uses the right operator on the right operands: branch weight = own weight + child's change (insert) / own weight - removed weight (delete); a split's new branch weighs Weight(existing) + Weight(payload); an update in place reports Weight(payload) - Weight(existing); a newly built subtree reports Weight(payload)")
 	r.Rule("DOM-reduce", "after a descent below a branch, delete returns the branch itself only where the rebuilt child tested non-nil or the result of the remaining-children scan was tested; the scan records slot i only where Children[i] tested non-nil and nothing had been recorded")
+	r.Rule("DOM-reject", "see C10: a range rejection that follows a comparison of the block with a weight holds only for block > weight")
+	r.Rule("LOCK-rootwrite", "a method of the weighted trie that takes the trie's lock calls the methods of the same trie that rewrite the root only with the lock held (the goroutine-safe Update must not hand removals to the unlocked Delete)")
 	r.Rule("FRESH-copy", "see C10: no return of Copy or CopyRoot is the receiver itself and no child slot of the copy is the receiver's own child: insert rewrites value nodes in place, so a trie built on a sharing copy has a changed leaf under ancestors that still carry the old weight and hash")
 	r.Rule("FRESH-keybuf", "in the weighted trie a value loaded from a shared-prefix node's key field is never the base of an append and is never passed for a parameter the callee appends onto: neighbouring nodes' keys are slices of one array, so such an append rewrites another node's key")
 	r.NotDec = append(r.NotDec, "the numeric equalities themselves (total weight = sum of live weights, block ownership, root = independent computation)")
@@ -83,6 +85,8 @@ func runC09(r *engine.Run) {
 	}
 	freshKeyBuf(r, "FRESH-keybuf")
 	freshCopy(r, "FRESH-copy")
+	domReject(r, "DOM-reject")
+	lockRootWrite(r, "LOCK-rootwrite")
 }
 
 func wfn(r *engine.Run, rule, name string) *ssa.Function {
